@@ -140,7 +140,8 @@ class Manager(RoleClient):
             except Exception:  # noqa: BLE001
                 payloads = None
             self.uploaded.setdefault((s["directory"], stem), []).append(
-                {"sha": hashlib.sha1(data).hexdigest(), "payloads": payloads, "size": len(data)})
+                {"sha": hashlib.sha1(data).hexdigest(), "payloads": payloads, "size": len(data),
+                 "damaged": bool(st.get("truncate"))})
         await self.api.upload(spk, fname, data)
 
     async def op_index(self, st: dict) -> None:
@@ -283,6 +284,11 @@ class Manager(RoleClient):
             # the stored file must carry the payloads of one of the uploads of that name (edits keep payloads)
             rec = next((a for a in reversed(attempts) if a["payloads"] == shas), None)
             if rec is None:
+                if any(a.get("damaged") for a in attempts):
+                    # a truncated upload that was edited afterwards: what the re-encoder makes of the cut
+                    # last fragment is not specified (damaged input), only intact uploads are compared
+                    world.probe("c17.readback-skip-damaged-upload")
+                    continue
                 self.notify("on_readback_unknown", s["directory"], m["name"])
                 continue
             size = b["size"]
